@@ -93,17 +93,34 @@ func (p *vc10Pool) open() *vc10Conn {
 	return vc
 }
 
-// echo sends n bytes of the connection's own stream and expects exactly them back.
+// vc10Stall is the error of an echo that did not complete; everything else echo returns is a
+// content error (foreign, lost or duplicated bytes), which needs no timing to be judged.
+type vc10Stall struct {
+	id, got, want int
+	err           error
+}
+
+func (e *vc10Stall) Error() string {
+	return fmt.Sprintf("echo of connection %d stalled after %d of %d bytes: %v", e.id, e.got, e.want, e.err)
+}
+
+var vc10SlowEchoes int64
+
+// echo sends n bytes of the connection's own stream and expects exactly them back. The deadline d
+// is only a first patience: when it passes the read goes on for another minute (a loaded machine
+// is slow, not wrong); only an echo that is still missing then is reported as a stall, and
+// judgeEcho decides what the stall means.
 func (vc *vc10Conn) echo(n int, d time.Duration) error {
 	buf := make([]byte, n)
 	vfFill(buf, vc.seed, vc.sent)
-	vc.peer.SetDeadline(time.Now().Add(d))
+	vc.peer.SetDeadline(time.Now().Add(d + time.Minute))
 	if _, err := vc.peer.Write(buf); err != nil {
 		return fmt.Errorf("peer write failed: %v", err)
 	}
 	vc.sent += uint64(n)
 	got := make([]byte, n)
 	m := 0
+	t0 := time.Now()
 	for m < n {
 		k, err := vc.peer.Read(got[m:])
 		if k > 0 {
@@ -114,8 +131,11 @@ func (vc *vc10Conn) echo(n int, d time.Duration) error {
 			m += k
 		}
 		if err != nil {
-			return fmt.Errorf("echo of connection %d stalled after %d of %d bytes: %v", vc.id, m, n, err)
+			return &vc10Stall{id: vc.id, got: m, want: n, err: err}
 		}
+	}
+	if time.Since(t0) > d {
+		atomic.AddInt64(&vc10SlowEchoes, 1)
 	}
 	return nil
 }
@@ -402,6 +422,7 @@ func vcRunC10(t *vcTrial) {
 	t.P("history_tail", hist[vcMaxInt(0, len(hist)-12):])
 	t.Stat("cache_exhausting_fillers", fillers)
 	t.Stat("closes_under_write", closesUnderWrite)
+	t.Stat("echoes_slower_than_5s", int(atomic.SwapInt64(&vc10SlowEchoes, 0)))
 	t.Stat("stale_calls", staleCalls)
 	t.Stat("slot_reuses", reuses)
 	t.Stat("fd_number_reuses", fdReuses)
@@ -422,11 +443,30 @@ func (p *vc10Pool) sharesSlot(vc *vc10Conn) bool {
 
 func (p *vc10Pool) judgeEcho(vc *vc10Conn, err error, hist []string) {
 	state := atomic.LoadInt32(&vc.op.state)
-	if vcRunnerProgress(5, 5*time.Second) {
-		p.t.Violate("C10", "bystander_disturbed", "live connection #%d: %v (its slot state is %d, 1 is normal; its slot is shared with a closed connection: %v); history %v", vc.id, err, state, p.sharesDead(vc), hist)
-	} else {
-		p.t.Inconclusive("echo failed and the runner canary made no progress: %v", err)
+	if st, ok := err.(*vc10Stall); ok {
+		// a stall counts only with a witness that the rest of the system is served meanwhile: a
+		// fresh connection on the same poller pool completes an echo while this one stays stuck
+		probe := p.open()
+		if probe == nil {
+			return // open() recorded the inconclusive verdict
+		}
+		p.live = p.live[:len(p.live)-1]
+		perr := probe.echo(64, 30*time.Second)
+		probe.peer.Close()
+		probe.conn.Close()
+		if perr != nil || !vcRunnerProgress(5, 5*time.Second) {
+			p.t.Inconclusive("echo stalled (%v) and so did a fresh probe connection (%v): the machine, not the connection", st, perr)
+			return
+		}
+		vc.peer.SetReadDeadline(time.Now().Add(2 * time.Second))
+		if k, _ := vc.peer.Read(make([]byte, st.want-st.got)); k > 0 {
+			p.t.Inconclusive("echo of connection %d resumed after more than a minute", vc.id)
+			return
+		}
+		p.t.Violate("C10", "bystander_disturbed", "live connection #%d: %v - more than a minute, while a fresh probe connection was served at once (its slot state is %d, 1 is normal; its slot is shared with a closed connection: %v; unread input buffered %d, handler invocations %d); history %v", vc.id, err, state, p.sharesDead(vc), vc.inner.inputBuffer.Len(), atomic.LoadInt32(&vc.reqs), hist)
+		return
 	}
+	p.t.Violate("C10", "bystander_disturbed", "live connection #%d: %v (its slot state is %d, 1 is normal; its slot is shared with a closed connection: %v); history %v", vc.id, err, state, p.sharesDead(vc), hist)
 }
 
 func (p *vc10Pool) sharesDead(vc *vc10Conn) bool {
